@@ -158,7 +158,11 @@ func runLedgerMon(pid string, seed uint64, n int, out, stats string) {
 	dist["order-scenario"] = 1 + n/3
 	// directed supply-cap scenarios
 	var k01, k02 []MonitorFailure
+	if pid == "C02" {
+		capCases = c
+	}
 	cb, ct := capScenarios(seed, 1+n/4, &k01, &k02)
+	capCases = nil
 	blocks += cb
 	txs += ct
 	nontriv += 1 + n/4
@@ -387,6 +391,8 @@ func orderScenarios(seed uint64, count int, c01, c02, c06 *[]MonitorFailure, che
 // capScenarios: coins whose volume is just below the maximum supply; purchases (BuyCoin with base coin and
 // with another custom coin, SellCoin / SellAllCoin into the coin) and mints of amounts around the remaining
 // room.  Every block is checked by the conservation / non-negativity / volume <= max supply monitors.
+var capCases *Cases // where the supply-cap scenarios write their model 24 cases (nil: nowhere)
+
 func capScenarios(seed uint64, count int, c01, c02 *[]MonitorFailure) (blocks, txs int) {
 	for i := 0; i < count; i++ {
 		s := seed*9091 + uint64(i)
@@ -424,18 +430,33 @@ func capScenarios(seed uint64, count int, c01, c02 *[]MonitorFailure) (blocks, t
 			left := new(big.Int).Sub(cn.MaxSupply(), cn.Volume())
 			return []*big.Int{new(big.Int).Add(left, Z(1)), new(big.Int).Mul(left, Z(2)), new(big.Int).Mul(left, Z(int64(3+r.Intn(100)))), left, new(big.Int).Sub(left, Z(1))}
 		}
+		// model 24 (coq/Model/CoinSupply.v): the supply-cap decision of a purchase and the new volume
+		buy := func(v *big.Int, sell types.CoinID, maxSell *big.Int) {
+			cn := n.App.CurrentState().Coins().GetCoin(capc)
+			vol, maxs := cn.Volume(), cn.MaxSupply()
+			br := step(n.MkTx(b, transaction.TypeBuyCoin, transaction.BuyCoinData{CoinToBuy: capc, ValueToBuy: v, CoinToSell: sell, MaximumValueToSell: maxSell}, 0, 0, 1, nil))
+			if capCases != nil && len(br.Txs) == 1 && (br.Txs[0].Code == 0 || br.Txs[0].Code == 112) {
+				acc := int64(0)
+				if br.Txs[0].Code == 0 {
+					acc = 1
+				}
+				capCases.Begin(24)
+				capCases.Op(L(Z(1), vol, maxs, v), L(Z(acc), n.App.CurrentState().Coins().GetCoin(capc).Volume()))
+				capCases.End(true, "supply-cap")
+			}
+		}
 		for _, v := range amounts() {
 			if v.Sign() < 1 {
 				continue
 			}
-			step(n.MkTx(b, transaction.TypeBuyCoin, transaction.BuyCoinData{CoinToBuy: capc, ValueToBuy: v, CoinToSell: 0, MaximumValueToSell: pip(1000000)}, 0, 0, 1, nil))
+			buy(v, 0, pip(1000000))
 		}
 		step(n.MkTx(a, transaction.TypeSellCoin, transaction.SellCoinData{CoinToSell: capc, ValueToSell: room, CoinToBuy: 0, MinimumValueToBuy: Z(0)}, 0, 0, 1, nil))
 		for _, v := range amounts() {
 			if v.Sign() < 1 {
 				continue
 			}
-			step(n.MkTx(b, transaction.TypeBuyCoin, transaction.BuyCoinData{CoinToBuy: capc, ValueToBuy: v, CoinToSell: other, MaximumValueToSell: pip(100000)}, 0, 0, 1, nil))
+			buy(v, other, pip(100000))
 		}
 		step(n.MkTx(a, transaction.TypeSellCoin, transaction.SellCoinData{CoinToSell: capc, ValueToSell: room, CoinToBuy: 0, MinimumValueToBuy: Z(0)}, 0, 0, 1, nil))
 		// selling into the coin: the amount bought is computed, it must stop at the cap too
